@@ -448,6 +448,75 @@ def build_slice(u):
     u.contracted += [("Rope::get_byte_slice_impl", "src/rope.rs")]
 
 
+def f1p_for_tuple(it, fn):
+    """F1: `for (chunk, _) in data.iter() {` -> `for (chunk, _) in it: data.iter() {` (names the ghost iterator)"""
+    return it.rule("F1", r"for \(chunk, _\) in data\.iter\(\) \{", "for (chunk, _) in it: data.iter() {", fn=fn)
+
+
+def build_render(u):
+    """to_bytes / to_string: the rope renders to exactly the text it denotes"""
+    u.raw(IMPL, ("glue", NAME))
+    tb = u.method("src/rope.rs", IMPL, "to_bytes")
+    f1p_for_tuple(tb, "to_bytes")
+    tb.sig("to_bytes", [("Rope::to_bytes.requires", "contract", "requires self.wf()"),
+                        ("Rope::to_bytes.ensures", "contract", "ensures cow_bytes(&r) == self.bytes()")], ret="r")
+    tb.loop("to_bytes", 1, [("Rope::to_bytes.loop1.inv", "contract", "invariant bytes@ == chunks_bytes(data@.take(it.index@ as int)),")])
+    tb.loop_body_start("to_bytes", 1, "Rope::to_bytes.hint.step", "hint", "proof { lemma_chunks_take(data@, it.index@ as int); }")
+    tb.at("to_bytes", "before", r"for \(chunk, _\) in it: data\.iter\(\)", "Rope::to_bytes.hint.init", "hint",
+          "proof { assert(data@.take(0) =~= Seq::<(&str, usize)>::empty()); }", regex=True, nth=1)
+    tb.at("to_bytes", "before", r"Cow::Owned\(bytes\)", "Rope::to_bytes.hint.end", "hint",
+          "proof { assert(data@.take(data@.len() as int) =~= data@); }", regex=True, nth=1)
+    tb.body_start("to_bytes", "canary.Rope::to_bytes", "canary", "proof { assert(false); }")
+    tb.loop_body_start("to_bytes", 1, "canary.Rope::to_bytes.loop1", "canary", "proof { assert(false); }")
+    ts = u.method("src/rope.rs", "impl ToString for Rope<'_> {", "to_string")
+    f1p_for_tuple(ts, "to_string")
+    ts.rule("D3", r"String::with_capacity\(self\.len\(\)\)", "String::new()", fn="to_string")
+    ts.sig("to_string", [("Rope::to_string.requires", "contract", "requires self.wf()"),
+                         ("Rope::to_string.ensures", "contract", "ensures encode_utf8(r@) == self.bytes()")], ret="r")
+    ts.loop("to_string", 1, [("Rope::to_string.loop1.inv", "contract", "invariant encode_utf8(s@) == chunks_bytes(data@.take(it.index@ as int)),")])
+    ts.loop_body_start("to_string", 1, "Rope::to_string.hint.step", "hint",
+                       "proof { lemma_chunks_take(data@, it.index@ as int); encode_utf8_concat(s@, chunk@); lemma_str_bytes(*chunk); }")
+    ts.at("to_string", "before", r"for \(chunk, _\) in it: data\.iter\(\)", "Rope::to_string.hint.init", "hint",
+          "proof { assert(data@.take(0) =~= Seq::<(&str, usize)>::empty()); lemma_empty_string(s@); }", regex=True, nth=1)
+    _, _, bc = ts.loop_span("to_string", 1)
+    ts.buf.insert_at(bc + 1, ["    proof { assert(data@.take(data@.len() as int) =~= data@); }"], ts._org("Rope::to_string.hint.end", "hint", "to_string", None))
+    ts.body_start("to_string", "Rope::to_string.hint.light", "hint", "broadcast use rope_ax::axiom_to_string_ref_str;\nproof { if let Repr::Light(s0) = self.repr { lemma_str_bytes(s0); } }")
+    ts.body_start("to_string", "canary.Rope::to_string", "canary", "proof { assert(false); }")
+    ts.loop_body_start("to_string", 1, "canary.Rope::to_string.loop1", "canary", "proof { assert(false); }")
+    eq = u.method("src/rope.rs", "impl PartialEq<str> for Rope<'_> {", "eq")
+    eq.rule("D1", r"fn eq\(", "fn eq_str(")
+    f1p_for_tuple(eq, "eq_str")
+    eq.sig("eq_str", [("Rope::eq_str.requires", "contract", "requires self.wf()"),
+                      # vstd does not specify `==` on byte slices, so the answer itself cannot be stated; what is proved is that the
+                      # comparison never slices `other` out of range (C17 / C16's "no in-domain operation panics")
+                      ("Rope::eq_str.total", "contract", "ensures true")], ret="r")
+    eq.body_start("eq_str", "Rope::eq_str.ghost.o", "ghost", "let ghost ob = other.spec_bytes();")
+    eq.body_start("eq_str", "Rope::eq_str.hint.len", "hint", "proof { self.lemma_last(); }")
+    eq.loop("eq_str", 1, [("Rope::eq_str.loop1.inv", "contract",
+                           "invariant chunks_wf(data@), other@ == ob, ob.len() == chunks_bytes(data@).len(), ob.len() <= usize::MAX, idx == chunks_bytes(data@.take(it.index@ as int)).len(), idx <= ob.len(),\n"
+                           "  ob.subrange(0, idx as int) == chunks_bytes(data@.take(it.index@ as int)),")])
+    eq.loop_body_start("eq_str", 1, "Rope::eq_str.hint.step", "hint",
+                       "proof {\n"
+                       "  let i = it.index@ as int; let d = data@;\n"
+                       "  lemma_chunks_take(d, i); lemma_chunks_prefix(d, i + 1); lemma_chunks_prefix(d, i);\n"
+                       "  let p = chunks_bytes(d.take(i)); let q = chunks_bytes(d.take(i + 1));\n"
+                       "  assert(ob.subrange(0, q.len() as int) =~= ob.subrange(0, p.len() as int) + ob.subrange(p.len() as int, q.len() as int));\n"
+                       "  assert(q.subrange(p.len() as int, q.len() as int) =~= d[i].0.spec_bytes());\n"
+                       "  if ob == chunks_bytes(d) {\n"
+                       "    assert(ob.subrange(p.len() as int, q.len() as int) =~= ob.subrange(0, q.len() as int).subrange(p.len() as int, q.len() as int));\n"
+                       "    assert(ob.subrange(p.len() as int, q.len() as int) == d[i].0.spec_bytes());\n"
+                       "  }\n"
+                       "}")
+    eq.at("eq_str", "before", r"for \(chunk, _\) in it: data\.iter\(\)", "Rope::eq_str.hint.init", "hint",
+          "proof { assert(data@.take(0) =~= Seq::<(&str, usize)>::empty()); assert(ob.subrange(0, 0) =~= Seq::<u8>::empty()); }", regex=True, nth=1)
+    _, _, bc = eq.loop_span("eq_str", 1)
+    eq.buf.insert_at(bc + 1, ["    proof { assert(data@.take(data@.len() as int) =~= data@); assert(ob.subrange(0, ob.len() as int) =~= ob); }"], eq._org("Rope::eq_str.hint.end", "hint", "eq_str", None))
+    eq.body_start("eq_str", "canary.Rope::eq_str", "canary", "proof { assert(false); }")
+    eq.loop_body_start("eq_str", 1, "canary.Rope::eq_str.loop1", "canary", "proof { assert(false); }")
+    u.raw("}", ("glue", NAME))
+    u.contracted += [("Rope::to_bytes", "src/rope.rs"), ("Rope::to_string", "src/rope.rs"), ("<Rope as PartialEq<str>>::eq", "src/rope.rs")]
+
+
 def build(u):
     u.header.insert(0, "#![feature(allocator_api, clone_to_uninit)]")
     for x in ["use vstd::string::StringSliceAdditionalSpecFns;", "use vstd::slice::SliceIndexSpec;", "use vstd::utf8::*;",
@@ -469,3 +538,4 @@ def build(u):
     u.raw(GLUE_FROM, ("glue", NAME))
     f = u.item("src/rope.rs", "impl<'a> From<&'a str> for Rope<'a> {")
     build_slice(u)
+    build_render(u)
